@@ -14,7 +14,7 @@ import (
 func init() {
 	register(&Prop{
 		ID:         "C16",
-		Decided:    "(1) the table key encoder is uniquely decodable for composite keys, separates strings from numbers by type tags, and normalises every Go numeric kind to one tag (keyenc); (2) MemoryTableSource.index is accessed only under its RWMutex (writes exclusively), tableStore.sources under its mutex; (3) enrichJoin writes only the fresh working copy (ownmap, shared with C20); (4) the JoinType literals written by parseJoin are exactly the ones enrichJoin distinguishes, the drop return is reachable only on the not-matched, not-LEFT arm, and a matched row is always attached; (4b) the table alias is defaulted to the table name before it is used to strip qualifiers from the ON columns; (5) the lookup key is built from OnPairs in order (StreamField), the same order JoinKeyFields reports for the index (TableField). Also: every use of a table source in package stream (TableSource.Lookup, MemoryTableSource.Upsert/Delete) takes its receiver from tableStore.get in the same activation, never from a field, package variable, atomic box or map that remembers a source across rows (flow/table-source-resolved-per-use). Also: in enrichJoin's loop over the JOINs no branch condition and no value written into the working row derives from a value carried over from the previous iteration (flow/join-result-per-iteration): a JOIN whose lookup is skipped cannot re-use the previous table's match. Also: TableSource.Lookup is unreachable on a path on which a key component was found NULL (flow/null-key-never-looked-up): the engine, not each source, guarantees that a NULL key matches nothing.",
+		Decided:    "(1) the table key encoder is uniquely decodable for composite keys, separates strings from numbers by type tags, and normalises every Go numeric kind to one tag (keyenc); (2) MemoryTableSource.index is accessed only under its RWMutex (writes exclusively), tableStore.sources under its mutex; (3) enrichJoin writes only the fresh working copy (ownmap, shared with C20); (4) the JoinType literals written by parseJoin are exactly the ones enrichJoin distinguishes, the drop return is reachable only on the not-matched, not-LEFT arm, and a matched row is always attached; (4b) the table alias is defaulted to the table name before it is used to strip qualifiers from the ON columns; (5) the lookup key is built from OnPairs in order (StreamField), the same order JoinKeyFields reports for the index (TableField). Also: every use of a table source in package stream (TableSource.Lookup, MemoryTableSource.Upsert/Delete) takes its receiver from tableStore.get in the same activation, never from a field, package variable, atomic box or map that remembers a source across rows (flow/table-source-resolved-per-use). Also: in enrichJoin's loop over the JOINs no branch condition and no value written into the working row derives from a value carried over from the previous iteration (flow/join-result-per-iteration): a JOIN whose lookup is skipped cannot re-use the previous table's match. Also: in enrichJoin no column of the stream row is written into the working row after an alias (FROM alias, table alias) was set (flow/alias-after-row-copy): a payload field named like an alias cannot replace the joined table row. Also: TableSource.Lookup is unreachable on a path on which a key component was found NULL (flow/null-key-never-looked-up): the engine, not each source, guarantees that a NULL key matches nothing.",
 		NotDecided: "read-your-writes across goroutines beyond the lock clause, column projection under aliases, WHERE/GROUP BY over joined columns.",
 		Run:        runC16,
 	})
@@ -29,6 +29,56 @@ func runC16(a *A) {
 	a.Rule("locks/guarded-by", 2, func() {
 		a.lockRules("stream", "MemoryTableSource")
 		a.lockRules("stream", "tableStore")
+	})
+	a.Rule("flow/alias-after-row-copy", 1, func() {
+		// the working row: the stream row's own columns first, then the aliases (FROM alias, table aliases) on top.
+		// A row column written after an alias was set overwrites the alias whenever the payload has a field of that
+		// name (a `meta` object in a row joined to table `meta`): alias.col would read the payload, not the table.
+		fn := a.Method("stream", "Stream", "enrichJoin")
+		var aliasSets, rowCopies []ssa.Instruction
+		allInstrs(fn, func(in ssa.Instruction) {
+			mu, ok := in.(*ssa.MapUpdate)
+			if !ok {
+				return
+			}
+			// key taken from ranging over the row parameter
+			if ex, isEx := mu.Key.(*ssa.Extract); isEx {
+				if nx, isNx := ex.Tuple.(*ssa.Next); isNx {
+					if rg, isRg := nx.Iter.(*ssa.Range); isRg {
+						if _, isParam := rg.X.(*ssa.Parameter); isParam {
+							rowCopies = append(rowCopies, in)
+							return
+						}
+					}
+				}
+			}
+			if strings.Contains(TermOf(mu.Key, nil).String(), "Alias") {
+				aliasSets = append(aliasSets, in)
+			}
+		})
+		if len(aliasSets) == 0 || len(rowCopies) == 0 {
+			a.Und(fname(fn)+"#alias-after-row-copy", fn.Pos(), "the copy of the row's columns (%d) or the alias assignments (%d) were not recognised in enrichJoin", len(rowCopies), len(aliasSets))
+			return
+		}
+		var bad ssa.Instruction
+		for _, as := range aliasSets {
+			if pathFromTo(as, func(y ssa.Instruction) bool {
+				for _, rc := range rowCopies {
+					if y == rc {
+						return true
+					}
+				}
+				return false
+			}, nil, nil) {
+				bad = as
+			}
+		}
+		pos := fn.Pos()
+		if bad != nil {
+			pos = bad.Pos()
+		}
+		a.Check(bad == nil, fname(fn)+"#alias-after-row-copy", pos, "no column of the stream row is written into the working row after an alias was set",
+			"a column of the stream row can be written into the working row after an alias was set: a payload field named like the alias replaces the joined table row")
 	})
 	a.Rule("ownmap/join-copy", 1, func() {
 		fn := a.Method("stream", "Stream", "enrichJoin")
